@@ -51,9 +51,10 @@ type Op struct {
 }
 
 type runner struct {
-	dir  string
-	nkey int
-	l    *ledger.FinalityLedger[*item]
+	dir   string
+	nkey  int
+	l     *ledger.FinalityLedger[*item]
+	extra *Op // a second observation of the same call (ReadAt through the view's Get instead of its Read)
 }
 
 func (r *runner) open() error {
@@ -146,6 +147,13 @@ func (r *runner) exec(op *Op) (err error) {
 			op.Out = -1
 		} else {
 			op.Out = val(iml.Read(k))
+			// the same historical read through the view's cached Get (the path block execution uses), twice
+			g1 := val(iml.Get(k))
+			g2 := val(iml.Get(k))
+			if g2 != g1 {
+				g1 = g2
+			}
+			r.extra = &Op{Op: "ReadAt", K: op.K, V: op.V, Out: g1}
 		}
 	case "Reopen":
 		ver := r.l.Version()
@@ -188,6 +196,11 @@ func ExecAll(seqs [][]Op, nkey int, tmp string, w *bufio.Writer) (int, error) {
 			ev := map[string]any{"op": seq[j].Op, "k": seq[j].K, "v": seq[j].V, "out": seq[j].Out}
 			_ = enc.Encode(ev)
 			n++
+			if r.extra != nil {
+				_ = enc.Encode(map[string]any{"op": r.extra.Op, "k": r.extra.K, "v": r.extra.V, "out": r.extra.Out, "via": "get"})
+				r.extra = nil
+				n++
+			}
 		}
 		_ = r.l.Close()
 		_ = os.RemoveAll(dir)
